@@ -31,6 +31,10 @@ mod gossip;
 mod live;
 mod state;
 
+/// Verification hooks: the coordination handlers of the live actor.
+#[cfg(iroh_docs_verif)]
+pub use self::live::verif as verif_live;
+
 /// Capacity of the channel for the [`ToLiveActor`] messages.
 const ACTOR_CHANNEL_CAP: usize = 64;
 /// Capacity for the channels for [`Engine::subscribe`].
